@@ -1638,6 +1638,15 @@ static void compile_expr(CG *cg, ASTNode *node) {
             break;
         }
 
+        /* A local of that name wins (lexical scoping).  In particular a nested function is bound to a
+         * local holding its closure: calling it directly would run it without its captured values. */
+        int16_t callee_slot = name ? local_find(cg, name) : -1;
+        if (callee_slot >= 0) {
+            emit_op(cg, OP_LOAD_LOCAL, (int)callee_slot);
+            emit_op(cg, OP_CALL_INDIRECT);
+            break;
+        }
+
         /* Look up function index */
         int32_t fn_idx = name ? fn_find(cg, name) : -1;
         if (fn_idx >= 0) {
